@@ -293,6 +293,7 @@ func runProperty(id string, progs []*cfgProg, loadErr error, tier string) *propR
 	}
 	spec := registry[id]
 	for _, cp := range progs {
+		resetInterned() // terms of one loaded program must never be handed out for another
 		ck := &Check{Prop: id, P: cp.p, Stats: map[string]int{}, cfg: cp.name}
 		func() {
 			defer func() {
@@ -483,4 +484,14 @@ func cmdExplain(args []string) int {
 		rep["property"], rep["rule"], rep["key"], rep["pos"], rep["function"], rep["required"], rep["found"], rep["message"])
 	fmt.Println("\nre-run the check to confirm it on the current tree:  ./run check -prop", rep["property"])
 	return 0
+}
+
+// resetInterned clears every string-keyed global store (hash-consed formulas, boolean terms,
+// linear-variable terms, nil-ness summaries). Their values carry pointers into one loaded SSA
+// program; a thorough run analyses several programs (build configurations) in one process.
+func resetInterned() {
+	fcons = map[string]*Formula{"T": FTrue, "F": FFalse}
+	boolfStore = map[string]*Formula{}
+	linTermOf = map[string]*Term{}
+	nonNilCache = map[string]bool{}
 }
